@@ -70,6 +70,21 @@ func maskTerm(mask uint) string {
 	return "(ts " + hx.List(ts) + ")"
 }
 
+// siteOf names the relay method an oracle rule is about.
+func siteOf(class string) string {
+	switch {
+	case strings.Contains(class, "handover"), strings.Contains(class, "not-first-subscriber"),
+		strings.Contains(class, "cache-left"), strings.Contains(class, "cached-final"), strings.Contains(class, "subscribe"):
+		return "wire.Relay.Subscribe"
+	case strings.Contains(class, "delete"):
+		return "wire.Relay.delete"
+	case strings.Contains(class, "close"):
+		return "wire.Relay.Close"
+	default:
+		return "wire.Relay.Put"
+	}
+}
+
 func nats(xs []int) string { return hx.ListOf(xs, func(i int) string { return fmt.Sprint(i) }) }
 
 // ====================================================================================
@@ -211,7 +226,7 @@ func waitFor(cond func() bool) bool {
 func runSeq(r *rand.Rand, hid int, maxOps int) seqOut {
 	out := seqOut{classes: map[string]int{}}
 	fail := func(class, what string) {
-		out.fails = append(out.fails, hx.Failure{Site: "wire.Relay", InputClass: class, What: what})
+		out.fails = append(out.fails, hx.Failure{Site: siteOf(class), InputClass: class, What: what})
 	}
 	relay := wire.NewRelay()
 	rec := &seqRec{ack: make(chan struct{}, 1<<14)}
@@ -233,9 +248,9 @@ func runSeq(r *rand.Rand, hid int, maxOps int) seqOut {
 	}
 	// the oracle's own bookkeeping, written from the property text
 	open := true
-	live := map[int]uint{}   // subscriptions in effect
-	cpred := map[int]uint{}  // active cache predicates
-	var retained []*putInfo  // envelopes that must be kept for a later subscriber, in order
+	live := map[int]uint{}  // subscriptions in effect
+	cpred := map[int]uint{} // active cache predicates
+	var retained []*putInfo // envelopes that must be kept for a later subscriber, in order
 	var puts []*putInfo
 	inflight := make([]int, nC) // observed from the real cache size: messages taken by Subscribe, not yet handed over
 	consumed := 0               // events attributed to an action
@@ -579,7 +594,7 @@ func runStress(cfg stressCfg, res *hx.Result) (nenv int, fails []hx.Failure) {
 		c.subOK = err == nil
 	}
 	failf := func(class, format string, a ...interface{}) {
-		fails = append(fails, hx.Failure{Site: "wire.Relay", InputClass: class, What: fmt.Sprintf("stress run %d: ", cfg.Run) + fmt.Sprintf(format, a...), Case: -1,
+		fails = append(fails, hx.Failure{Site: siteOf(class), InputClass: class, What: fmt.Sprintf("stress run %d: ", cfg.Run) + fmt.Sprintf(format, a...), Case: -1,
 			Replay: cfg})
 	}
 	// tags: 0,1,2 have stable subscribers (overlapping), 3 has churning subscribers and a churning cache
@@ -901,13 +916,12 @@ func Run(seed int64, tier, out string) {
 	res := hx.NewResult("C18", seed, tier)
 	res.Rule = "sequential histories: random sequences of put/subscribe/cache/release/consumer-close/delete/hand-over/close on one wire.Relay, " +
 		"distinct by the whole (actions, observations) term, trivial if no envelope was put; stress: concurrent producers with subscribe/close/cache churn, one evaluation per run"
-	const perFile = 20
+	perFile, nSeq, maxOps, nStress, perPhase := 32, 320, 40, 12, 500
+	if tier == "thorough" {
+		perFile, nSeq, maxOps, nStress, perPhase = 100, 4000, 60, 60, 3000
+	}
 	w := hx.NewCaseWriter(out, "Run.Compare_C18", perFile)
 	res.PerFile = perFile
-	nSeq, maxOps, nStress, perPhase := 320, 40, 8, 300
-	if tier == "thorough" {
-		nSeq, maxOps, nStress, perPhase = 4000, 60, 60, 2000
-	}
 	for h := 0; h < nSeq; h++ {
 		r := rand.New(rand.NewSource(hx.Rng.Int63()))
 		o := runSeq(r, h, maxOps)
